@@ -120,7 +120,7 @@ static int classify(const Got &g, int &ch, int &val) {
     return -1;
 }
 
-struct Cfg { double mult = 1.0; int driver = 0; int play_req = 1024; int track_off = -1, track_solo = -1, chan_off = -1; double step = 0.001; };
+struct Cfg { double mult = 1.0; int driver = 0; int play_req = 1024; int track_off = -1, track_solo = -1, chan_off = -1; double step = 0.001; bool loop = false; int loop_count = 0; };
 
 static std::string song_str(const Song &s) {
     std::string r = "fmt" + std::to_string(s.format) + " div" + std::to_string(s.division) + (s.running ? " running-status" : "");
@@ -152,6 +152,7 @@ static bool load_song(pl::Instance &I, const Bytes &file, const Cfg &c, en::Case
     opn2_openBankData(d, g_bank.data(), (long)g_bank.size());
     opn2_setRawEventHook(d, raw_hook, NULL);
     if(opn2_openData(d, file.data(), (unsigned long)file.size()) != 0) { o.fail(g_prop + "/well-formed-file-rejected", std::string("opn2_openData failed: ") + opn2_errorInfo(d)); return false; }
+    if(c.loop) { opn2_setLoopEnabled(d, 1); opn2_setLoopCount(d, c.loop_count); }
     if(c.mult != 1.0) opn2_setTempo(d, c.mult);
     if(c.track_off >= 0) opn2_setTrackOptions(d, (size_t)c.track_off, OPNMIDI_TrackOption_Off);
     if(c.track_solo >= 0) opn2_setTrackOptions(d, (size_t)c.track_solo, OPNMIDI_TrackOption_Solo);
